@@ -51,6 +51,9 @@ def _re_ranges(ranges):
 
 
 RE_WS = _re_ranges(PY_WS)
+# whitespace int() skips: C isspace() on ASCII (no U+001C..U+001F) + every non-ASCII str.isspace() character
+INT_WS = [(0x09, 0x0D), (0x20, 0x20)] + [r for r in PY_WS if r[0] > 0x7F]
+RE_WS_INT = _re_ranges(INT_WS)
 RE_DIGIT = z3.Range("0", "9")
 
 
@@ -321,13 +324,23 @@ def no_ws_ends(r):
                   z3.Not(z3.InRe(z3.SubString(r, z3.Length(r) - 1, 1), RE_WS)))
 
 
-def strip_term(t):
-    """s.strip() as the uninterpreted py_strip(s) with its defining ground facts."""
-    r, a, b = PY_STRIP(t), PY_LWS(t), PY_RWS(t)
+PY_INT_STRIP = z3.Function("py_int_strip", z3.StringSort(), z3.StringSort())
+PY_INT_LWS = z3.Function("py_int_strip_lws", z3.StringSort(), z3.StringSort())
+PY_INT_RWS = z3.Function("py_int_strip_rws", z3.StringSort(), z3.StringSort())
+
+
+def strip_term(t, flavor="str"):
+    """s.strip() (flavor 'str') or the whitespace skipping of int() (flavor 'int') as an uninterpreted
+    function of s with its defining ground facts."""
+    if flavor == "str":
+        r, a, b, ws = PY_STRIP(t), PY_LWS(t), PY_RWS(t), RE_WS
+    else:
+        r, a, b, ws = PY_INT_STRIP(t), PY_INT_LWS(t), PY_INT_RWS(t), RE_WS_INT
     axiom(t == z3.Concat(a, r, b))
-    axiom(z3.InRe(a, z3.Star(RE_WS)))
-    axiom(z3.InRe(b, z3.Star(RE_WS)))
-    axiom(z3.Or(z3.Length(r) == 0, no_ws_ends(r)))
+    axiom(z3.InRe(a, z3.Star(ws)))
+    axiom(z3.InRe(b, z3.Star(ws)))
+    axiom(z3.Or(z3.Length(r) == 0, z3.And(z3.Not(z3.InRe(z3.SubString(r, 0, 1), ws)),
+                                          z3.Not(z3.InRe(z3.SubString(r, z3.Length(r) - 1, 1), ws)))))
     axiom(z3.Implies(z3.Length(r) == 0, z3.Length(b) == 0))
     return r
 
@@ -1585,7 +1598,7 @@ def model_int_of_str(ex, st, s):
         except ValueError:
             yield ex.raise_(st, "ValueError")
         return
-    c = strip_term(s.t)
+    c = strip_term(s.t, "int")
     axiom(z3.Implies(z3.InRe(c, RE_SIGNED), PY_INT_OK(c)))
     axiom(z3.Implies(z3.InRe(c, RE_DIGITS), PY_INT_VAL(c) == z3.StrToInt(c)))
     for st1, ok in ex.branch(st, _wrap_bool(PY_INT_OK(c))):
